@@ -20,7 +20,7 @@ VARIABLE l
 vars == << l >>
 
 InputsOK(ev) ==
-  /\ \A i \in 1..4 : ev.vb[i] = OfScaled(ev.vb4[i], 2 - ev.e1)
+  /\ \A i \in 1..4 : ev.vb[i] = OfScaledAny(ev.vb4[i], 2 - ev.e1)
   /\ \A i \in 1..2 : ev.d[i] = OfScaled(ev.d4[i], 2 - ev.e2) /\ ev.a[i] = OfScaled(ev.a4[i], 2)
 
 (* floor(n * 2^q / d) for 0 <= |n|, d > 0, staged to stay below 2^31 *)
@@ -42,9 +42,9 @@ JudgeFit(ev) ==
   ELSE "placement differs from the rational model"
 
 JudgeSize(ev) ==
-  IF ~(\A i \in 1..4 : ev.vb[i] = OfScaled(ev.vb4[i], 2 - ev.e1)) THEN "hint"
-  ELSE IF /\ ev.got[1] = OfScaled(ev.vb4[3] - ev.vb4[1], 2 - ev.e1)
-          /\ ev.got[2] = OfScaled(ev.vb4[4] - ev.vb4[2], 2 - ev.e1) THEN "ok"
+  IF ~(\A i \in 1..4 : ev.vb[i] = OfScaledAny(ev.vb4[i], 2 - ev.e1)) THEN "hint"
+  ELSE IF /\ ev.got[1] = OfScaledAny(ev.vb4[3] - ev.vb4[1], 2 - ev.e1)
+          /\ ev.got[2] = OfScaledAny(ev.vb4[4] - ev.vb4[2], 2 - ev.e1) THEN "ok"
   ELSE "Size is not max minus min"
 
 Close(a, b) == Sign(a) = Sign(b) /\ UlpDist(a, b) <= 16
